@@ -32,7 +32,9 @@ def main():
     caught_any = sum(1 for n, per in own if any(r.get('exit') == 1 for r in per.values()))
     head = ('Detection by the **quick** tier at seed 0 (`tools/seedmatrix.py`, final state of the checks): %d seeded changes, '
             '%d caught by the check of the property they were written against, %d caught by at least one registered check; '
-            'the hand-written mutants are listed last.\n\n| change | needs in order to manifest | caught by (first signature) |\n|---|---|---|\n'
+            'the hand-written mutants are listed last. Rows without a case count were measured by `tools/seedcheck.py` during the '
+            'confirmation of their round; rows of changes that were already caught were not all re-measured after later '
+            'strengthening of the same check (a complete matrix takes several hours on this machine).\n\n| change | needs in order to manifest | caught by (first signature) |\n|---|---|---|\n'
             % (len(own), caught_own, caught_any))
     table = head + '\n'.join(rows) + '\n'
     p = os.path.join(HERE, 'DESIGN.md')
